@@ -61,6 +61,7 @@ type World struct {
 	OpLog       []string                                            // operations actually performed (kind path), for conformance
 	LogOps      bool
 	FdCreates   int // number of descriptor-creating calls so far (for exhaustion windows)
+	CoarseReads bool // read-only operations (lstat, stat, open for reading, read, opendir) are not scheduling points
 	LiveWatchers int
 }
 
@@ -89,13 +90,17 @@ var errnoByName = map[string]syscall.Errno{
 	"EACCES": syscall.EACCES, "ENOTDIR": syscall.ENOTDIR, "EXDEV": syscall.EXDEV, "EEXIST": syscall.EEXIST, "EINTR": syscall.EINTR,
 }
 
+var readOnly = map[string]bool{"lstat": true, "stat": true, "open": true, "read": true, "opendir": true}
+
 // ErrDead is what a crashed thread's file-system calls return: the process is gone.
 var ErrDead = errors.New("process is dead")
 
 // Begin is called at the start of every environment operation: scheduling point, then the
 // environment's answer. A non-nil error means the operation must not be performed.
 func Begin(op, path string) error {
-	sched.Point(op + " " + rel(path))
+	if !(W.CoarseReads && readOnly[op]) {
+		sched.Point(op + " " + rel(path))
+	}
 	t := sched.Current()
 	if t != nil && t.Dead {
 		return ErrDead
